@@ -49,8 +49,8 @@ func ruleK6(p *Program, r *Reporter) {
 			}
 		}
 	}
-	if n < 2 {
-		r.Anchor(id, fmt.Sprintf("OvsMap decoder: %d tag tests, expected >= 2", n))
+	if n < 1 {
+		r.Anchor(id, fmt.Sprintf("OvsMap decoder: %d tag tests, expected >= 1", n))
 	}
 }
 
@@ -359,6 +359,52 @@ func ruleGARGS(p *Program, r *Reporter) {
 	fc := newFlowCtx(fn)
 	ok, why := fc.lenAtLeast(args, 2, call)
 	if !ok {
+		// the test may live in a decoding helper: g(args) whose every successful
+		// return has established the length, and whose failure stops Transact
+		for _, b := range fn.Blocks {
+			for _, ins := range b.Instrs {
+				c2, isCall := ins.(*ssa.Call)
+				if !isCall || c2 == call || !b.Dominates(call.Block()) {
+					continue
+				}
+				g := c2.Call.StaticCallee()
+				if g == nil || pkgOf(g) != "server" || len(g.Blocks) == 0 {
+					continue
+				}
+				pi := -1
+				for i, a := range c2.Call.Args {
+					if a == args {
+						pi = i
+					}
+				}
+				if pi < 0 || pi >= len(g.Params) {
+					continue
+				}
+				if !errorStops(c2, call.Block()) {
+					continue
+				}
+				fg := newFlowCtx(g)
+				all, nret := true, 0
+				for _, gb := range g.Blocks {
+					ret, isRet := gb.Instrs[len(gb.Instrs)-1].(*ssa.Return)
+					if !isRet || len(ret.Results) == 0 {
+						continue
+					}
+					if c, isC := ret.Results[len(ret.Results)-1].(*ssa.Const); !isC || !c.IsNil() {
+						continue // failure return
+					}
+					nret++
+					if okr, _ := fg.lenAtLeast(g.Params[pi], 2, ret); !okr {
+						all = false
+					}
+				}
+				if all && nret > 0 {
+					ok, why = true, "established by "+funcName(g)+": every successful return follows a test implying len >= 2, and its failure ends the handler"
+				}
+			}
+		}
+	}
+	if !ok {
 		why = "the transact handler runs a transaction without having established len(args) >= 2 (database name plus at least one operation): an empty operation list reaches code that stores into results[0] and the server panics"
 	}
 	r.Ob(id, funcName(fn), "at least one operation", call.Pos(), ok, true, why)
@@ -476,7 +522,75 @@ func ruleGENENUM(p *Program, r *Reporter) {
 				ifs(ok2, "the alias name is only used where enumTypes is true", "fieldType names the enum alias although enum types are switched off: the generated struct refers to a type that is never emitted and does not compile"))
 		}
 	}
-	if n < 2 {
-		r.Anchor(id, fmt.Sprintf("fieldType: %d uses of enumName, expected >= 2", n))
+	if n < 1 {
+		r.Anchor(id, fmt.Sprintf("fieldType: %d uses of enumName, expected >= 1", n))
 	}
+}
+
+// errorStops: the error result of call c is tested against nil and the branch
+// taken when it is non-nil cannot reach block target.
+func errorStops(c *ssa.Call, target *ssa.BasicBlock) bool {
+	refs := c.Referrers()
+	if refs == nil {
+		return false
+	}
+	var errVals []ssa.Value
+	if _, isTuple := c.Type().(*types.Tuple); isTuple {
+		n := c.Type().(*types.Tuple).Len()
+		for _, r := range *refs {
+			if ex, ok := r.(*ssa.Extract); ok && ex.Index == n-1 {
+				errVals = append(errVals, ex)
+			}
+		}
+	} else {
+		errVals = append(errVals, c)
+	}
+	for _, ev := range errVals {
+		er := ev.Referrers()
+		if er == nil {
+			continue
+		}
+		for _, u := range *er {
+			bo, ok := u.(*ssa.BinOp)
+			if !ok || (bo.Op != token.NEQ && bo.Op != token.EQL) {
+				continue
+			}
+			br := bo.Referrers()
+			if br == nil {
+				continue
+			}
+			for _, u2 := range *br {
+				iff, ok := u2.(*ssa.If)
+				if !ok {
+					continue
+				}
+				bad := iff.Block().Succs[0]
+				if bo.Op == token.EQL {
+					bad = iff.Block().Succs[1]
+				}
+				if !blockReaches(bad, target) {
+					return true
+				}
+			}
+		}
+	}
+	return false
+}
+
+func blockReaches(from, to *ssa.BasicBlock) bool {
+	seen := map[*ssa.BasicBlock]bool{}
+	work := []*ssa.BasicBlock{from}
+	for len(work) > 0 {
+		b := work[len(work)-1]
+		work = work[:len(work)-1]
+		if seen[b] {
+			continue
+		}
+		seen[b] = true
+		if b == to {
+			return true
+		}
+		work = append(work, b.Succs...)
+	}
+	return false
 }
